@@ -301,7 +301,15 @@ impl DataModel {
         Ok(())
     }
 
-    pub fn update_with(&mut self, mut new_data_model: Self, system: bool) -> Result<(), Error> {
+    pub fn update_with(&mut self, new_data_model: Self, system: bool) -> Result<(), Error> {
+        // work on a copy: a refused update must leave the current model untouched
+        let mut updated = self.clone();
+        updated.apply_update(new_data_model, system)?;
+        *self = updated;
+        Ok(())
+    }
+
+    fn apply_update(&mut self, mut new_data_model: Self, system: bool) -> Result<(), Error> {
         for namespace in &new_data_model.namespace_ids {
             if system && !SYSTEM_NAMESPACE.eq(namespace.0) {
                 return Err(Error::NamespaceUpdate(format!(
